@@ -2738,7 +2738,16 @@ func (fc *FuncCtx) addDuration(t *TimeTerm, d ssa.Value, k int64) {
 	case *ssa.Convert:
 		fc.addDuration(t, x.X, k)
 		return
-	case *ssa.Parameter, *ssa.Field, *ssa.FieldAddr, *ssa.Phi, *ssa.Call:
+	case *ssa.Parameter:
+		// a duration handed to a helper analysed as part of its caller (fromNow(-1 * MaxClockSkew)): the argument, in
+		// the caller's terms
+		if av := fc.argVal[x]; av != nil && fc.parent != nil {
+			fc.parent.addDuration(t, av, k)
+			return
+		}
+		t.Coef[fc.AP(d)] += k
+		return
+	case *ssa.Field, *ssa.FieldAddr, *ssa.Phi, *ssa.Call:
 		t.Coef[fc.AP(d)] += k
 		return
 	}
